@@ -23,6 +23,6 @@ VotesT3 == { <<1, 1, 1, 1>>, <<1, 1, 2, 3>>, <<2, 1, 1, 1>> }
 CommitsQuick == VotesQuickA \cup VotesQuickB
 \* thorough, commit lattice: every class of 1..4 validators
 CommitsThorough == CommitsQuick \cup { <<3, 1>>, <<1, 1, 2>>, <<5, 1, 1>>,
-                                     <<1, 1, 1, 1>>, <<1, 1, 1, 2>>, <<1, 1, 2, 2>>, <<1, 1, 1, 4>>, <<1, 1, 2, 3>>,
-                                     <<1, 1, 3, 3>>, <<1, 1, 1, 7>>, <<1, 2, 2, 5>>, <<3, 2, 1, 1>> }
+                                     <<1, 1, 1, 1>>, <<2, 1, 1, 1>>, <<1, 1, 2, 2>>, <<1, 4, 1, 1>>, <<1, 1, 2, 3>>,
+                                     <<3, 1, 1, 3>>, <<1, 1, 1, 7>>, <<5, 2, 2, 1>> }
 =============================================================================
